@@ -660,6 +660,63 @@ theorem digest_rfc2617_client_latin1 (P : Prims) (cfg : DigestCfg) (method : Str
   exact digest_rfc2617_client P cfg method now _ fs u ha1 ts t hk (digestMatches_prefix _)
     (tryDecodeHeader_latin1 P _ hl' hP) hv hu hq hget hnonce hts hint hfresh hresp
 
+/-! ### the wire: UTF-8 configuration (the default), concrete codec -/
+
+theorem char_ofNat_toNat_lt (n : Nat) (h : n < 256) : (Char.ofNat n).toNat = n := by
+  have hv : n.isValidChar := by left; omega
+  simp [Char.ofNat, hv, Char.ofNatAux, Char.toNat]
+
+/-- the WSGI server's Latin-1 view of the header bytes loses nothing -/
+theorem latin1_enc_dec : ∀ b : Bytes, latin1Encode (latin1Decode b) = some b
+  | [] => rfl
+  | x :: xs => by
+    have hx : x.toNat < 256 := x.toNat_lt
+    have ih := latin1_enc_dec xs
+    unfold latin1Decode at ih
+    simp only [latin1Decode, List.map_cons, latin1Encode, char_ofNat_toNat_lt _ hx, hx, if_true, ih,
+      Option.map_some, UInt8.ofNat_toNat]
+
+theorem utf8Encode_append (a b : Str) :
+    CpModel.AuthPrims.utf8Encode (a ++ b) = CpModel.AuthPrims.utf8Encode a ++ CpModel.AuthPrims.utf8Encode b := by
+  unfold CpModel.AuthPrims.utf8Encode
+  simp [String.toUTF8, List.utf8Encode]
+
+/-- a client that writes the header text in UTF-8: the tool reads back exactly that text -/
+theorem tryDecodeHeader_utf8 (H : Str → Str) (b64 : Str → Option Bytes) (nfc : Str → Str) (text : Str) :
+    tryDecodeHeader ⟨H, b64, CpModel.AuthPrims.utf8Decode, nfc⟩
+      (latin1Decode (CpModel.AuthPrims.utf8Encode text)) = some text := by
+  unfold tryDecodeHeader tryDecode
+  simp only [latin1_enc_dec, utf8_roundtrip]
+
+theorem digestMatches_utf8_wire (rest : Str) :
+    digestMatches (latin1Decode (CpModel.AuthPrims.utf8Encode (cs! "Digest " ++ rest))) = true := by
+  have h1 : CpModel.AuthPrims.utf8Encode (cs! "Digest ") = [68, 105, 103, 101, 115, 116, 32] := by decide +kernel
+  have h2 : latin1Decode ([68, 105, 103, 101, 115, 116, 32] ++ CpModel.AuthPrims.utf8Encode rest) =
+      cs! "Digest " ++ latin1Decode (CpModel.AuthPrims.utf8Encode rest) := by
+    simp only [latin1Decode, List.map_append]
+    rfl
+  rw [utf8Encode_append, h1, h2]
+  exact digestMatches_prefix _
+
+/-- **RFC 2617 client over the default UTF-8 wire, concrete codec, no hypothesis left about the header**: the bytes
+    are the UTF-8 encoding of `Digest ` followed by the serialised fields (any code points), seen by the tool through
+    the WSGI server's Latin-1 decoding.  `H`, base64 and NFC stay arbitrary. -/
+theorem digest_rfc2617_client_utf8 (H : Str → Str) (b64 : Str → Option Bytes) (nfc : Str → Str)
+    (cfg : DigestCfg) (method : Str) (now : Int) (fs : List Fld) (u ha1 ts : Str) (t : Int)
+    (hk : ∀ f ∈ fs, f.Good)
+    (hv : Valid (fieldsOf (fs.map Fld.pair))) (hu : (fieldsOf (fs.map Fld.pair)).username = some u)
+    (hq : (fieldsOf (fs.map Fld.pair)).qop = none ∨ (fieldsOf (fs.map Fld.pair)).qop = some (cs! "auth"))
+    (hget : getHa1 ⟨H, b64, CpModel.AuthPrims.utf8Decode, nfc⟩ cfg u = some ha1)
+    (hnonce : (fieldsOf (fs.map Fld.pair)).nonce =
+      some (synthesizeNonce ⟨H, b64, CpModel.AuthPrims.utf8Decode, nfc⟩ cfg.realm cfg.key ts))
+    (hts : ':' ∉ ts) (hint : pyInt ts = some t) (hfresh : t + 600 > now)
+    (hresp : (fieldsOf (fs.map Fld.pair)).response =
+      some (rfcDigest ⟨H, b64, CpModel.AuthPrims.utf8Decode, nfc⟩ (fieldsOf (fs.map Fld.pair)) method ha1)) :
+    digestAuth ⟨H, b64, CpModel.AuthPrims.utf8Decode, nfc⟩ cfg method now
+      (some (latin1Decode (CpModel.AuthPrims.utf8Encode (cs! "Digest " ++ serialise fs)))) = .grant u :=
+  digest_rfc2617_client _ cfg method now _ fs u ha1 ts t hk (digestMatches_utf8_wire _)
+    (tryDecodeHeader_utf8 H b64 nfc _) hv hu hq hget hnonce hts hint hfresh hresp
+
 /-! ### 5xx -/
 
 /-- an exception escapes `digest_auth` exactly in the F21 situation: `qop=auth-int` on a header that parses, with a
